@@ -86,7 +86,7 @@ class Gen:
     def is_plain(self, ty):
         """values comparable with == by structure: no floats, lists, tracked values inside"""
         if isinstance(ty, str):
-            return ty in INT_TYS + ["bool", "char", "str", "unit"]
+            return ty in INT_TYS + ["bool", "char", "str", "unit", "Tr"]
         if ty[0] == "opt":
             return self.is_plain(ty[1])
         if ty[0] == "list":
@@ -112,14 +112,18 @@ class Gen:
                 choices += ["opt"]
             if self.has("list") and "list" in allow:
                 choices += ["list"]
+        if self.has("tr"):
+            choices += ["tr"] * 3
         c = self.r.choice(choices)
+        if c == "tr":
+            return "Tr"
         if c == "scalar":
             return self.r.choice(self.scalar_tys())
         if c == "named":
             return ["named", self.r.choice(self.typelist)]
         if c == "opt":
             return ["opt", self.random_ty(depth - 1, ("scalar", "named"))]
-        return ["list", self.r.choice([t for t in self.scalar_tys() if t not in FLOAT_TYS] or ["i32"])]
+        return ["list", self.r.choice([t for t in self.scalar_tys() if t not in FLOAT_TYS] + (["Tr", "Tr"] if self.has("tr") else []) or ["i32"])]
 
     # ------------------------------------------------------------ type declarations
     def gen_types(self, n):
@@ -175,7 +179,7 @@ class Gen:
 
     def leaf(self, ty, ctx_fixed=False):
         r = self.r
-        if isinstance(ty, str) and ty != "unit" and ty != "Tr":
+        if isinstance(ty, str) and ty not in ("unit", "Tr"):
             vs = self.vars_of(ty)
             c = r.random()
             if vs and c < 0.45:
@@ -430,6 +434,8 @@ class Gen:
     def stmt(self, d):
         r = self.r
         forms = ["let"] * 4 + ["set"] * 2 + ["emit"] * 2 + ["tick"]
+        if self.has("tr"):
+            forms += ["usetr"] * 2
         if self.has("copymut"):
             forms += ["copymut"] * 3 + ["observe"] * 2
         if d > 0:
@@ -472,6 +478,10 @@ class Gen:
             op = r.choice(["add", "sub", "mul", "div", "rem"])
             rhs = self.safe_divisor(t) if op in ("div", "rem") else self.expr(t, d - 1)
             return {"k": "cset", "op": op, "ty": t, "p": [n], "e": rhs}
+        if f == "usetr":
+            vs = self.vars_of("Tr")
+            e = var(r.choice(vs)) if vs and r.random() < 0.7 else self.expr("Tr", max(d - 1, 0))
+            return host("use", "unit", self.tag(), [e])
         if f in ("copymut", "observe"):
             cands = [(n, t) for (n, t) in self.all_vars() if isinstance(t, list)]
             if not cands:
@@ -549,6 +559,8 @@ class Gen:
     def observe(self, e, ty, depth):
         """statements that emit every observable leaf of the value of expression e (a variable or path)"""
         out = []
+        if ty == "Tr":
+            return [host("use", "unit", self.tag(), [e])]
         if isinstance(ty, str):
             if self.emit_ok(ty):
                 out.append(host("emit", ty, self.tag(), [e]))
@@ -556,9 +568,9 @@ class Gen:
         if depth <= 0:
             return out
         if ty[0] == "list":
-            if self.emit_ok(ty[1]):
+            if self.emit_ok(ty[1]) or ty[1] == "Tr":
                 x = self.fresh("x")
-                out.append({"k": "for", "n": x, "e": e, "b": block([host("emit", ty[1], self.tag(), [var(x)])])})
+                out.append({"k": "for", "n": x, "e": e, "b": block(self.observe(var(x), ty[1], 1))})
             out.append(host("emit", "u64", self.tag(), [{"k": "lcall", "m": "len", "r": e, "args": []}]))
             return out
         if ty[0] == "opt":
